@@ -97,6 +97,11 @@ def run(tier, replay=None):
                 drift += 1
                 if len(ck.notes) < 5:
                     ck.notes.append({"model_drift": r["drift"][:2], "sp": c["sp"], "topo": c["topo"]})
+            for k, h in enumerate(c["hist"]):
+                # a failing (not refused) pass that starts from a non-empty committed-ingress ledger: the rollback has to
+                # reinstall frontiers WITH their ledger (every head is runnable, hence checkpointed, in these scenarios)
+                if h["a"]["a"] == "tick" and not h["r"]["ok"] and h["r"]["err"] != "SchedulerRuntimeFaultActive" and k > 0 and c["hist"][k - 1]["s"]["comm"]:
+                    stats["failed_passes_over_nonempty_ledger"] = stats.get("failed_passes_over_nonempty_ledger", 0) + 1
             failed = [h for h in c["hist"] if h["a"]["a"] == "tick" and not h["r"]["ok"]]
             if failed:
                 nontrivial += 1
@@ -118,6 +123,8 @@ def run(tier, replay=None):
             raise ToolError(f"no failing pass observed for failure kinds {missing}")
         if stats.get("head_faults", 0) == 0 or stats.get("runtime_faults", 0) == 0 or stats.get("panics", 0) == 0:
             raise ToolError(f"vacuous run: {stats}")
+        if stats.get("failed_passes_over_nonempty_ledger", 0) == 0:
+            raise ToolError(f"vacuous run: no failing pass started from a non-empty committed-ingress ledger: {stats}")
         if stats.get("rejections", 0) == 0 or stats.get("quarantine_skips", 0) == 0 or stats.get("refused", 0) == 0:
             raise ToolError(f"vacuous run (no lawful rejection / quarantine skip / refused pass): {stats}")
         if not {(6, k) for k in range(1, 7)} <= fail_positions or not {1, 2, 3} <= fail_pass:
